@@ -51,7 +51,8 @@ claim('C04', 'other',
       FORMULA_NOTE, 'symbolic execution of LLVM IR + SMT identity checking', 'DESIGN.md §4 C04')
 claim('C20', 'other',
       'Both sides are library terms extracted from the IR; parameters of the larger model are substituted by 0 and z3 decides equality with the smaller model\'s term over the shared parameter symbols '
-      '(3D->2D Euler/NS at arbitrary z, mu=k=0 NS->Euler, temporal amplitudes 0 transient->steady Euler, heat unsteady->steady and variable->constant).',
+      '(3D->2D Euler/NS at arbitrary z, mu=k=0 NS->Euler, temporal amplitudes 0 transient->steady Euler, heat unsteady->steady and variable->constant). '
+      'Every reduction is additionally evaluated on the real library through two handles of one process at one generic parameter set (API-level validation, every run).',
       FORMULA_NOTE, 'symbolic execution of LLVM IR + parameter substitution + SMT equality', 'DESIGN.md §4 C20')
 
 claim('C05', 'other',
@@ -69,7 +70,7 @@ claim('C06', 'other',
 claim('C08', 'other',
       'sod_1d: (a) rtbis with func UNINTERPRETED, unrolled 3 (5 thorough) bisection steps and case-split on every sign: at every return the result is the lower end of a bracket [r, r+dx] with func(r) <= 0 <= func(r+dx) and |dx| < xacc or |func(mid)| < thresh; '
       '(b) with p_m a symbol: func == (shock-side - rarefaction-side velocity)/c_r, Rankine-Hugoniot mass and momentum jumps, every evaluator path returns the value of the wave region its conditions select with front speeds -c_l, -v_t, v_m, v_s, fronts ordered, density/velocity continuous across the fan (Gamma = 7/5; 5 rational values thorough). '
-      'Replay for Sod: both evaluators on an x/t grid over every wave region against the exact Riemann solution. cp_normal: prior/posterior == normalised normal densities with the conjugate mean/variance for data vectors of length 1..3 (6) with symbolic contents, posterior ~ likelihood*prior (exponent derivatives), loglikelihood == exponent of the likelihood, mean/variance evaluators, central moments k=0..20.',
+      'Sod members that the evaluators do not recompute are arbitrary remembered values. Replay for Sod: both evaluators on an x/t grid over every wave region against the exact Riemann solution. cp_normal: prior/posterior == normalised normal densities with the conjugate mean/variance for data vectors of length 1..3 (6) with symbolic contents, posterior ~ likelihood*prior (exponent derivatives), loglikelihood == exponent of the likelihood, mean/variance evaluators, central moments k=0..20.',
       FORMULA_NOTE + ' Sod states are the library\'s hard-coded (1,1) / (1/8,1/8); fractional powers are opaque atoms with v^q = base^p axioms, so the relation list is claimed for the listed rational Gamma values; bisection is bounded by the stated unrolling.',
       'symbolic execution of LLVM IR with uninterpreted func / summarised rtbis + SMT (z3 nlsat) identities and inequalities', 'DESIGN.md §4 C08')
 
@@ -95,7 +96,7 @@ claim('C11', 'other',
       STRUCT_NOTE, 'symbolic execution of LLVM IR over container contract models; path-condition feasibility by z3', 'DESIGN.md §4 C11')
 claim('C14', 'other',
       'Finite catalogue enumerated exhaustively by executing get_list_mms/masa_init/masa_printid/masa_get_name/masa_get_dimension/masa_init_param/masa_sanity_check on the IR for every entry and both scalar types; '
-      'documented evaluators (spec/capabilities.json): vtable slot overridden + no path through the API reaches a stub for symbolic arguments; interior-point finiteness with defaults is run on the real library for every documented evaluator and every valid direction index (finite statement; a crash of that run is a violation).',
+      'documented evaluators (spec/capabilities.json): vtable slot overridden + no path through the API reaches a stub for symbolic arguments; interior-point finiteness with defaults is run on the real library for every documented evaluator and every valid direction index, and masa_init of an existing handle with its own solution after a purge must give a sane default instance (finite statement; a crash of that run is a violation).',
       STRUCT_NOTE + ' Capability and dimension tables are frozen specifications in /verif/spec.', 'symbolic execution of LLVM IR (finite exhaustive catalogue) + concrete run of the real library for the interior-point clause', 'DESIGN.md §4 C14')
 claim('C15', 'other',
       'Every (catalogue solution, masa_eval_* API template) pair outside the capability table (about 8400 pairs, both scalar types) executed with symbolic arguments: all paths (direction index symbolic) return the constant -1.33, print one MASA ERROR line, store nothing, do not terminate. '
@@ -110,7 +111,7 @@ claim('C10', 'other',
       STRUCT_NOTE + ' Bit-for-bit reproducibility assumes every IR operation is a deterministic function of its operand bits (fixed rounding mode).', 'symbolic execution of LLVM IR from an arbitrary object state (frame + self-composition)', 'DESIGN.md §4 C10')
 claim('C12', 'other',
       'One API step from a registry state with K (2 quick, 3 thorough) entries whose handle strings are pairwise-distinct SYMBOLS mapped to live objects built by the real masa_init on the IR: '
-      'masa_select_mms(H), masa_init(H,name) (fresh default instance mapped at H and selected, nothing else written), masa_set_param (stores only inside the selected object), masa_list_mms/get_name, and independence of the double and long double registries (no <Scalar> operation writes the other registry, and observers -- get_name, get_dimension, sanity_check, get_param, list_mms, an evaluator -- report the same with and without a solution selected in the other registry); H symbolic covers every registered and every new handle. '
+      'masa_select_mms(H) (a normal return without a matched handle is a violation), masa_init(H,name) (fresh default instance mapped at H and selected, nothing else written), masa_set_param (stores only inside the selected object), masa_list_mms/get_name, and independence of the double and long double registries (no <Scalar> operation writes the other registry, and observers -- get_name, get_dimension, sanity_check, get_param, list_mms, an evaluator -- report the same with and without a solution selected in the other registry); H symbolic covers every registered and every new handle. '
       'Bounded API sequences (depth 4 quick, 5 thorough) of init/select/set_param/get_param over 2 handles from the empty registry are explored against a reference registry (state outside the K-entry shape, e.g. the first init).',
       STRUCT_NOTE + ' K bounds the symbolic shape only; std::map is modelled for any K.', 'symbolic execution of LLVM IR over a symbolic finite-map registry (inductive one-step)', 'DESIGN.md §4 C12')
 claim('C13', 'model_checking',
@@ -119,7 +120,7 @@ claim('C13', 'model_checking',
       'masa_map.cpp is analysed by CBMC only; inside Engine A masa_map is replaced by its contract.',
       'Bounded: strings longer than the bound are outside the claim. Trusted: CBMC C++ front end with -DSWIG, the stub headers in /verif/cbmc/stub (bounded std::string with the common member functions, <algorithm>, <cctype> of the C locale), unnamed namespaces of the unit given names textually before CBMC reads it (lookup-preserving); Engine A contract models.', 'CBMC bounded model checking of the real translation unit + symbolic execution of masa_init', 'DESIGN.md §4 C13')
 claim('C16', 'other',
-      'In the default (exit) build and in a -DMASA_EXCEPTIONS -fexceptions build of the IR: every solution-dependent API template (130 per scalar type) called with symbolic arguments before any masa_init, masa_select_mms of an unknown (symbolic) handle and masa_init of an unknown (symbolic) solution name from a K=2 symbolic registry: '
+      'In the default (exit) build and in a -DMASA_EXCEPTIONS -fexceptions build of the IR: every solution-dependent API template (130 per scalar type) called with symbolic arguments before any masa_init of its scalar type (both registries empty, and only the other registry initialised), masa_select_mms of an unknown (symbolic) handle and masa_init of an unknown (symbolic) solution name from a K=2 symbolic registry: '
       'the only path prints MASA FATAL ERROR, then reaches exit(1) / throw of int 1, with no store into pre-existing memory and the registry snapshot unchanged; '
       'in the exception build a second step from the state the caught failure leaves: the same failing call fails the same way again and every registered handle can still be selected.',
       STRUCT_NOTE + ' Cleanup code on unwind edges is assumed not to touch the registry.', 'symbolic execution of LLVM IR in two build configurations (event-trace and store-set checking)', 'DESIGN.md §4 C16')
